@@ -12,7 +12,7 @@ import random
 from .. import runcheck, problems, swrap, sapi
 from ..common import hexd
 
-KINDS = ["noobj", "nullf", "nullopt", "x0_outside", "x0_fixed", "lb_gt_ub", "infinite_global", "missing_local", "dimension", "population", "step_too_wide"]
+KINDS = ["noobj", "nullf", "nullopt", "x0_outside", "x0_fixed", "lb_gt_ub", "infinite_global", "missing_local", "dimension", "population", "step_too_wide", "nullx", "too_many_eq"]
 
 
 def violate(rng, A, p, kind, algd):
@@ -25,6 +25,17 @@ def violate(rng, A, p, kind, algd):
         q["nullf"] = 1
     elif kind == "nullopt":
         q["nullopt"] = 1
+    elif kind == "nullx":
+        q["nullx"] = 1
+    elif kind == "too_many_eq":
+        # more equality constraints (counted by components) than variables: SLSQP must refuse before any callback
+        if name != "NLOPT_LD_SLSQP":
+            return None
+        q.pop("ineq", None)
+        if rng.random() < 0.5:
+            q["eq"] = ";".join("s:0:%s:%s:%d" % (hexd(0.0), hexd(rng.uniform(-0.3, 0.3)), 3 + k) for k in range(n + 1))
+        else:
+            q["eq"] = "v:%d:0:-:%s:3" % (n + rng.choice([1, 2]), hexd(rng.uniform(-0.3, 0.3)))
     elif kind == "x0_outside":
         i = rng.randrange(n)
         free = [k for k in range(n) if p["lb"][k] != p["ub"][k]]
@@ -124,7 +135,7 @@ def run(ctx):
         for nm in problems.ALL:
             for kind in KINDS:
                 for _ in range(reps):
-                    base = problems.gen_problem(rng, A, alg_name=nm, box=rng.choice(["finite", "finite", "offset", "big"]))
+                    base = problems.gen_problem(rng, A, alg_name=nm, box=rng.choice(["finite", "finite", "offset", "big", "fixed"]))
                     q = violate(rng, A, base, kind, ctx.alg)
                     if q:
                         ps.append(q)
